@@ -97,3 +97,22 @@ def is_tmp_field(ix, v, name):
 
 def contains(v, needle):
     return needle in set(sym.walk(v))
+
+
+def same_address(ix, v, leaf):
+    """v is `leaf` itself, possibly passed through wrappers that either return their argument unchanged or fail
+    (Api::addr_validate, Addr::unchecked, unwrap/?): the named account, not merely something computed from it"""
+    v = ix.inline(v)
+    for _ in range(12):
+        if v == leaf:
+            return True
+        t = tag(v)
+        if t in ("unwrap", "ok") or (t == "op" and payload(v)[0] in ("unwrap", "try")):
+            v = ix.inline(kids(v)[0])
+        elif t == "call" and str(payload(v)[0]).endswith("Api::addr_validate") and len(kids(v)) == 2:
+            v = ix.inline(kids(v)[1])
+        elif t == "call" and str(payload(v)[0]).endswith("Addr::unchecked") and len(kids(v)) == 1:
+            v = ix.inline(kids(v)[0])
+        else:
+            return False
+    return False
